@@ -209,6 +209,14 @@ def run(ctx: Ctx) -> None:
     # ------------------------------------------------------------------ R8.10
     _scan_loop(ctx, lm)
 
+    # ------------------------------------------------------------------ R8.11
+    # "partitions the text": what the lexer is given is the input (line ends normalised and nothing else) - a pre-pass that
+    # joins or moves lines changes which line a token is counted on.  C09's R9.5, evaluated here under this property's id.
+    if not isinstance(ctx, SubCtx):
+        from . import c09 as _c09
+        from ..report import run_shared as _rs811
+        _rs811(ctx, _c09.run, {"R9.5": ("R8.11", "the text handed to the lexer is the input with CR LF read as LF, nothing else rewritten")})
+
 
 def _scan_loop(ctx: Ctx, lm: LexModel) -> None:
     """R8.10: the rule model (priority order, literal fallback) describes Lexer.token only if nothing in its scanning loop
